@@ -58,7 +58,9 @@ def mc_family(family, tier, wd):
         consts['MaxLen'] = consts['MaxLen'] + 2
     cfg = os.path.join(wd, f'MC_{family}.cfg')
     write_cfg(cfg, 'MCSpec', consts, invariants=MC_INV, properties=MC_PROPS, constraint='Bounded', view='View')
+    t0 = time.time()
     r = tlc_mc('MC_IggyLog', cfg, wd, workers=8, timeout=1500)
+    log(f'{family}: MC {r["distinct"]} distinct states in {time.time() - t0:.0f}s')
     r['consts'] = consts
     return r
 
@@ -69,9 +71,13 @@ def gen_scripts(family, tier, wd, seed, rnd):
     out = []
     depth = {'layout': 4, 'retention': 5, 'dedup': 3, 'offsets': 3}[family] + (1 if tier == 'thorough' else 0)
     consts = dict(g['consts']); consts['MaxOps'] = depth
+    if family == 'dedup' and tier == 'quick':
+        consts['MaxBatch'] = 2     # 3 ids x batches <= 3 gives 39 sends per step; the walks below keep batches of 3
     cfg = os.path.join(wd, f'Gen_{family}.cfg')
     write_cfg(cfg, 'MCSpec', consts, invariants=['EmitScript'], constraint='Bounded')
+    t0 = time.time()
     paths = tlc_scripts('MC_IggyLog', cfg, wd, workers=4, timeout=900)
+    log(f'{family}: {len(paths)} path-cover scripts (depth {depth}) in {time.time() - t0:.0f}s')
     paths = [s for s in paths if len(s) >= 2]
     # simulated walks (deeper), guards respected
     consts2 = dict(g['consts']); consts2['MaxOps'] = 14 if tier == 'quick' else 24
@@ -87,7 +93,7 @@ def gen_scripts(family, tier, wd, seed, rnd):
 def to_scenario(sid, family, script, cfg, seed):
     g = GEN[family]
     cfg = dict(cfg)
-    cfg['dedup'] = bool(g.get('dedup'))
+    cfg['dedup'] = bool(g.get('dedup')) and (seed % 7 != 0)   # every 7th dedup scenario is the "deduplication off" control
     steps = []
     expiry = g['expiry']
     for op in script:
